@@ -1367,6 +1367,16 @@ class SpaceManager(SharedSpaceOperations):
 
         # FIX: Creating a Cells of the same name in ``space``
 
+        if not is_valid_name(name):
+            # Determine the name here as CellsImpl does, so that
+            # the name is checked against the sub spaces as well
+            if formula is not None:
+                name = Formula(formula).name
+            while not is_valid_name(name):
+                name = space.cellsnamer.get_next(space.namespace)
+                if not self._can_add(space, name, CellsImpl):
+                    name = None
+
         if not self._can_add(space, name, CellsImpl):
             raise ValueError("Cannot create cells '%s'" % name)
 
